@@ -249,6 +249,13 @@ class Engine:
         return t.make(**{f'_{i}': x for i, x in enumerate(els)})
 
     def ev_Subscript(self, e, st):
+        v = e.value
+        if isinstance(v, ast.Call) and isinstance(v.func, ast.Name) and v.func.id == 'list' and len(v.args) == 1 \
+                and isinstance(e.slice, ast.Constant) and e.slice.value == 0:
+            coll = self.ev(v.args[0], st)                 # list(S)[0]: some element of the set S (order unknown)
+            if isinstance(coll.t, TSet):
+                self.oblige(st, 'no IndexError (list(set)[0] of a non-empty set)', self.truthy(coll), e.lineno)
+                x = coll.t.elem.fresh('any'); st.pc.append(Select(coll.term, x.term)); return x
         base = self.ev(e.value, st)
         if isinstance(e.slice, ast.Slice): raise Unsupported('slice')
         k = self.ev(e.slice, st)
@@ -338,6 +345,17 @@ class Engine:
         if isinstance(f, ast.Attribute):
             if f.attr in self.w.ctors and isinstance(f.value, ast.Name) and f.value.id not in st.env:
                 return self.w.ctors[f.attr](self, e, st)                      # module.Class()
+            if isinstance(f.value, ast.Call) and isinstance(f.value.func, ast.Name) and f.value.func.id == 'super' and not f.value.args:
+                me = self.ev(ast.Name(id='self', ctx=ast.Load(), lineno=e.lineno, col_offset=0), st)
+                sup = getattr(self.w, 'super_of', {}).get(me.t.name)
+                if sup is None or f'{sup.name}.{f.attr}' not in self.w.contracts: raise Unsupported(f'super().{f.attr} on {me.t} (line {e.lineno})')
+                up = sup.make(**{fl: me.t.get(me, fl) for fl, _ in sup.fields})
+                c = self.w.contracts[f'{sup.name}.{f.attr}']
+                tmp = '$super'; st.env[tmp] = up
+                res = self.apply_contract(c, ast.Name(id=tmp, ctx=ast.Load(), lineno=e.lineno, col_offset=0), up, [self.ev(a, st) for a in e.args], st, e.lineno)
+                back = st.env[tmp]
+                self.assign(ast.Name(id='self', ctx=ast.Store(), lineno=e.lineno, col_offset=0), me.t.make(**{fl: sup.get(back, fl) for fl, _ in me.t.fields}), st)
+                return res
             recv = self.ev(f.value, st); args = [self.ev(a, st) for a in e.args]
             r = self.coll_method(f, recv, args, st, e)
             if r is not None: return r
@@ -403,6 +421,8 @@ class Engine:
         for n, a in zip(rest, args): o[n] = a
         for (n, t) in c.params:
             if n in o and o[n].t != t and not (o[n].t is TNone):
+                if (o[n].t.name, t.name) in getattr(self.w, 'subtypes', ()):      # upcast between record types with the same fields
+                    o[n] = t.make(**{f: o[n].t.get(o[n], f) for f, _ in t.fields}); continue
                 raise Unsupported(f'argument {n} of {c.key}: {o[n].t} given, {t} expected (line {line})')
         ons = NS(o)
         if c.requires is not None: self.oblige(st, f'precondition of {c.key}', c.requires(ons), line)
@@ -415,7 +435,8 @@ class Engine:
         else: res = c.ret.fresh('ret_' + c.key.split('.')[-1])
         if c.ensures is not None and (c.pure is None or c.modifies):       # a pure spec term already is the postcondition
             if c.ghosts:
-                g = NS({k: t.fresh('ghost_' + k) for k, t in c.ghosts.items()})
+                gd = {k: t.fresh('ghost_' + k) for k, t in c.ghosts.items()}; g = NS(gd)
+                for k, v in gd.items(): st.env[f"$ghost.{c.key.split('.')[-1]}.{k}"] = v
                 st.pc.append(unwrap(c.ensures(ons, res, NS(new), g)))
             else: st.pc.append(unwrap(c.ensures(ons, res, NS(new))))
         st.env['$ret.' + c.key.split('.')[-1]] = res
@@ -475,6 +496,10 @@ class Engine:
         if isinstance(s, (ast.Import, ast.ImportFrom, ast.Pass)): return [(st, 'normal')]
         if isinstance(s, ast.Assign):
             v = self.empty_literal(s.value, s.targets[0], st) or self.ev(s.value, st)
+            t0 = s.targets[0]
+            if v.t is TNone and isinstance(t0, ast.Name) and t0.id in self.cur.locals:
+                dt = self.cur.locals[t0.id]
+                if isinstance(dt, TVal) and dt.name in self.w.none_consts: v = Sym(dt, self.w.none_consts[dt.name])     # Optional[value]
             for t in s.targets:
                 if isinstance(t, ast.Tuple): self.bind_target(t, v, st.env)
                 else: self.assign(t, v, st, rebind=isinstance(t, ast.Name))
@@ -487,7 +512,20 @@ class Engine:
                 t = self.cur.ret
                 if not isinstance(t, (TSet, TBag, TSeq)): raise Unsupported('empty literal returned, contract return type is not a collection')
                 return [(st, ('return', t.empty()))]
+            if isinstance(s.value, ast.List) and isinstance(self.cur.ret, TSeq):        # a list literal returned as a sequence
+                els = [self.ev(x, st) for x in s.value.elts]; term = Unit(els[0].term)
+                for x in els[1:]: term = Concat(term, Unit(x.term))
+                return [(st, ('return', Sym(self.cur.ret, term)))]
             return [(st, ('return', self.ev(s.value, st) if s.value is not None else NONE_SYM))]
+        if isinstance(s, ast.Delete):
+            for tgt in s.targets:
+                if not isinstance(tgt, ast.Subscript): raise Unsupported(f'del of {type(tgt).__name__} (line {s.lineno})')
+                base = self.ev(tgt.value, st); k = self.ev(tgt.slice, st)
+                if not is_map(base.t): raise Unsupported(f'del on {base.t}')
+                self.oblige(st, 'no KeyError (del)', self.mem(base, k), s.lineno)
+                nm_ = base.t.make(dom=Sym(TSet(base.t.key), Store(base.t.get(base, 'dom').term, k.term, False)), val=base.t.get(base, 'val'))
+                self.assign(tgt.value, nm_, st)
+            return [(st, 'normal')]
         if isinstance(s, ast.Raise):
             n = s.exc.func.id if isinstance(s.exc, ast.Call) else getattr(s.exc, 'id', '?')
             return [(st, ('raise', n))]
@@ -515,6 +553,10 @@ class Engine:
             t = base.t.val
         elif isinstance(target, ast.Name) and target.id in self.cur.locals:
             t = self.cur.locals[target.id]
+        elif isinstance(target, ast.Attribute) and st is not None:
+            base = self.ev(target.value, st); fld = self.w.fields.get((base.t.name, target.attr), target.attr)
+            if not isinstance(fld, str): raise Unsupported('empty literal stored into a computed field')
+            t = base.t.ftype(fld)
         else:
             raise Unsupported(f'empty collection needs a declared type (line {val.lineno})')
         if is_map(t):
@@ -581,6 +623,10 @@ class Engine:
         def finish(body_outs, next_done_inv):
             for e_st, oc in body_outs:
                 if oc in ('normal', 'continue'):
+                    for n_ in mod:
+                        a_, b_ = st.env.get(n_), e_st.env.get(n_)
+                        if isinstance(a_, Sym) and isinstance(b_, Sym) and a_.t is not None and b_.t is not None and a_.t != b_.t:
+                            raise Unsupported(f'loop {ordinal}: `{n_}` has type {a_.t} at the loop head and {b_.t} at the end of the body (line {s.lineno})')
                     self.oblige(e_st, f'loop {ordinal} inv-preserved', next_done_inv(e_st), s.lineno)
                 elif oc == 'break': results.append((e_st, 'normal'))
                 else: results.append((e_st, oc))
